@@ -14,6 +14,7 @@
 typedef struct { int id, kind, phase, qi; uint64_t call_seq, ret_seq, start_seq, end_seq; _Atomic int runs; int on_main; int result; int payload; } item_t;
 /* qi: 0 the main queue itself, 1 a serial lane targeting it, 2 a concurrent lane targeting it (C03 with a thread-bound bottom) */
 static dispatch_queue_t g_lane[3];
+static dispatch_queue_t g_subq, g_otherq;   /* kind 5: a synchronous submission made FROM an item of g_subq (its frames stay accepted by dispatch_assert_queue, C18) */
 static char g_key_main, g_key_lane;     /* queue-specific keys: one set on the main queue, one on each lane (C18) */
 static item_t g_items[MAXI];
 static _Atomic int g_nitems, g_fail, g_phase, g_clients_done;
@@ -32,11 +33,28 @@ static void item_fn(void *c)
 	 * bottom of all three, so its key is always found; the lane key is found on the lane it was set on only */
 	if (dispatch_get_specific(&g_key_main) != (void *)0x1001) oracle_fail("C18", "dispatch_get_specific: key set on the main queue not found from an item of its hierarchy", it->id, it->qi);
 	if (dispatch_get_specific(&g_key_lane) != (it->qi ? (void *)(uintptr_t)(0x2000 + it->qi) : NULL)) oracle_fail("C18", "dispatch_get_specific: wrong value for the key set on the lanes", it->id, it->qi);
+	if (it->kind == 5) {
+		/* C18: "dispatch_assert_queue accepts exactly the queues of that chain (and those of the submitting context for
+		 * synchronous submissions)": also when the call was redirected to the thread-bound main thread because the lane was
+		 * busy.  A wrong verdict is the library's client crash -> the runtime's crash exit (70) -> violation. */
+		dispatch_assert_queue(g_subq);
+		dispatch_assert_queue(g_lane[it->qi]);
+		dispatch_assert_queue(dispatch_get_main_queue());
+		dispatch_assert_queue_not(g_otherq);
+	}
 	if (it->payload != it->id * 3 + 1) oracle_fail("C05", "submitter's writes not visible in main-queue item", it->id, it->payload);
 	g_chain++;
 	if (vrt_rand() % 5 == 0) { volatile int x = 0; for (int i = 0; i < 500; i++) x++; }
 	it->result = it->id ^ 0x1234;
 	it->end_seq = vrt_api("End", 0, it->id, it->kind, 0);
+}
+static void outer_fn(void *c)
+{
+	item_t *it = c;
+	dispatch_assert_queue(g_subq);
+	if (it->id & 1) dispatch_sync_f(g_lane[it->qi], it, item_fn); else dispatch_barrier_sync_f(g_lane[it->qi], it, item_fn);
+	dispatch_assert_queue(g_subq);
+	dispatch_assert_queue_not(g_lane[it->qi]);
 }
 static void submit(int kind)
 {
@@ -53,6 +71,7 @@ static void submit(int kind)
 	case 2: dispatch_sync_f(q, it, item_fn); break;
 	case 3: dispatch_barrier_sync_f(q, it, item_fn); break;
 	case 4: dispatch_async_and_wait_f(q, it, item_fn); break;
+	case 5: dispatch_sync_f(g_subq, it, outer_fn); break;
 	}
 	it->ret_seq = vrt_api("Ret", 0, id, kind, 0);
 	if (kind >= 2) {
@@ -68,7 +87,7 @@ static void *client(void *a)
 		while (atomic_load(&g_phase) < ph) usleep(100);
 		for (int i = 0; i < g_ops; i++) {
 			unsigned k = (unsigned)(vrt_rand() % 100);
-			submit(k < 45 ? 0 : k < 55 ? 1 : k < 78 ? 2 : k < 88 ? 3 : 4);
+			submit(k < 40 ? 0 : k < 50 ? 1 : k < 68 ? 2 : k < 78 ? 3 : k < 88 ? 4 : 5);
 		}
 		atomic_fetch_add(&g_clients_done, 1);
 	}
@@ -130,6 +149,8 @@ int main(int argc, char **argv)
 	g_lane[0] = dispatch_get_main_queue();
 	g_lane[1] = dispatch_queue_create_with_target("verif.main.serial", DISPATCH_QUEUE_SERIAL, dispatch_get_main_queue());
 	g_lane[2] = dispatch_queue_create_with_target("verif.main.conc", DISPATCH_QUEUE_CONCURRENT, dispatch_get_main_queue());
+	g_subq = dispatch_queue_create("verif.main.submitter", DISPATCH_QUEUE_SERIAL);
+	g_otherq = dispatch_queue_create("verif.main.other", DISPATCH_QUEUE_SERIAL);
 	dispatch_queue_set_specific(g_lane[0], &g_key_main, (void *)0x1001, NULL);
 	dispatch_queue_set_specific(g_lane[1], &g_key_lane, (void *)0x2001, NULL);
 	dispatch_queue_set_specific(g_lane[2], &g_key_lane, (void *)0x2002, NULL);
